@@ -20,7 +20,8 @@ EXPLANATION = (
     "the whole list stored under 'compose', and __call__ returns (getter(data), the unpacked context); (d) the constructors reject "
     "non-callable/Variable getters and empty/non-Variable argument lists with LenaTypeError before any state is "
     "built; (e) get_data, get_context and get_data_context split a value by the one predicate _has_context, which recognises a pair "
-    "with isinstance (subclasses of dict are contexts).  Does not decide the nested-dictionary values (that compose lists types in order for all chains).")
+    "with isinstance (subclasses of dict are contexts); (f) no closure created in a loop of the variables module captures a "
+    "per-iteration name by reference, and the conditions of _update_context read the keys type/compose/variable only.  Does not decide the nested-dictionary values (that compose lists types in order for all chains).")
 RULES = {
     "C14-a": "FOLD: Compose getter/context and Combine getter iterate self._vars forwards, threading the value",
     "C14-b": "FRESH: every var_context given to _update_context / stored in combine is a per-call deepcopy; __call__ does not write self",
@@ -29,6 +30,8 @@ RULES = {
     "C14-d": "TYPESTATE: Variable/Combine/Compose reject bad arguments with LenaTypeError before building state",
     "C14-e": "AGREE: get_data, get_context and get_data_context split a value by one and the same predicate, which accepts "
              "subclasses of tuple/dict (isinstance, not an exact-type test)",
+    "C14-f": "no getter built in a loop captures the loop's variable by reference (late binding: every such closure would use the last "
+             "variable); whether _update_context composes is decided by the presence of types only, never by names",
 }
 VAR = "lena.variables.variable"
 LTE = "lena.core.exceptions.LenaTypeError"
@@ -550,7 +553,86 @@ def check_value_split(ctx):
     ctx.instances_floor("C14-e", n, 6, "return paths of the value-splitting helpers")
 
 
+def check_closures_and_guard(ctx):
+    res = ctx.res
+    mod = ctx.tree.module(VAR)
+    n_loops = 0
+    for loop in ast.walk(mod.tree):
+        if not isinstance(loop, (ast.For, ast.While)):
+            continue
+        n_loops += 1
+        varying = set(A.target_names(loop.target)) if isinstance(loop, ast.For) else set()
+        for x in A.walk_body(loop.body):
+            if isinstance(x, ast.Name) and isinstance(x.ctx, ast.Store):
+                varying.add(x.id)
+        for f in A.walk_body(loop.body):
+            if not isinstance(f, (ast.Lambda, ast.FunctionDef)):
+                continue
+            params = set(A.func_params(f))
+            body = [f.body] if isinstance(f, ast.Lambda) else f.body
+            loads = {x.id for b in body for x in ast.walk(b) if isinstance(x, ast.Name) and isinstance(x.ctx, ast.Load)}
+            stores = {x.id for b in body for x in ast.walk(b) if isinstance(x, ast.Name) and isinstance(x.ctx, ast.Store)}
+            captured = (loads - params - stores) & varying
+            if not captured:
+                continue
+            par = A.parent(f)
+            consumed_now = isinstance(par, ast.Call) and f in par.args or isinstance(par, ast.keyword)
+            if consumed_now:
+                continue
+            ctx.violation("C14-f", f, "the function `%s` is created inside a loop and reads the loop's `%s` when it is *called*, not when it "
+                          "is created: every function built by this loop then uses the value of the last iteration (for a composed getter: "
+                          "the last variable's getter applied n-1 times)" % (A.short(f, 60), ", ".join(sorted(captured))),
+                          construct="late-binding:%s" % ",".join(sorted(captured)))
+    ctx.instances_floor("C14-f/loops", n_loops, 3, "loops of lena/variables/variable.py examined for late-binding closures")
+    ctx.ok("C14-f", (VAR, "<module>"), "no closure created in a loop captures a per-iteration name by reference")
+    # the composition guard of _update_context: conditions may look at the keys 'type', 'compose' and 'variable' only
+    uc = ctx.tree.func(VAR, "Variable._update_context")
+    ALLOWED_KEYS = {"type", "compose", "variable"}
+
+    def foreign_keys(node):
+        out = set()
+        for x in ast.walk(node):
+            if isinstance(x, ast.Subscript) and isinstance(x.slice, ast.Constant) and isinstance(x.slice.value, str) \
+                    and x.slice.value not in ALLOWED_KEYS:
+                out.add(x.slice.value)
+            elif isinstance(x, ast.Call) and isinstance(x.func, ast.Attribute) and x.func.attr in ("get", "pop") and x.args \
+                    and isinstance(x.args[0], ast.Constant) and isinstance(x.args[0].value, str) and x.args[0].value not in ALLOWED_KEYS:
+                out.add(x.args[0].value)
+            elif isinstance(x, ast.Compare) and len(x.ops) == 1 and isinstance(x.ops[0], (ast.In, ast.NotIn)) \
+                    and isinstance(x.left, ast.Constant) and isinstance(x.left.value, str) and x.left.value not in ALLOWED_KEYS:
+                out.add(x.left.value)
+        return out
+    tainted = {}
+    for _ in range(4):
+        for st in A.walk_local(uc):
+            if isinstance(st, ast.Assign) and len(st.targets) == 1 and isinstance(st.targets[0], ast.Name):
+                fk = foreign_keys(st.value)
+                for x in ast.walk(st.value):
+                    if isinstance(x, ast.Name) and x.id in tainted:
+                        fk |= tainted[x.id]
+                if fk:
+                    tainted[st.targets[0].id] = fk
+    n = 0
+    for t in A.walk_local(uc):
+        test = None
+        if isinstance(t, (ast.If, ast.While, ast.IfExp, ast.Assert)):
+            test = t.test
+        if test is None:
+            continue
+        n += 1
+        fk = foreign_keys(test)
+        for x in ast.walk(test):
+            if isinstance(x, ast.Name) and x.id in tainted:
+                fk |= tainted[x.id]
+        ctx.check("C14-f", not fk, test, "_update_context branches on the key(s) %s of the variable contexts (`%s`): whether and how two "
+                  "variables compose must depend on the presence of their types only -- e.g. two variables of different types that "
+                  "share a name would no longer be composed" % (sorted(fk), A.short(test, 60)),
+                  detail="_update_context: condition reads only type/compose/variable", construct="compose-guard-key:%s" % ",".join(sorted(fk)))
+    ctx.instances_floor("C14-f/guard", n, 5, "conditions of _update_context")
+
+
 def check(ctx):
+    check_closures_and_guard(ctx)
     check_value_split(ctx)
     check_black_box(ctx)
     check_fold(ctx)
@@ -560,6 +642,8 @@ def check(ctx):
 
 
 VARIANTS = [
+    M("compose-late-binding", "lena/variables/variable.py", "        def getter(value):\n            for var in self._vars:\n                value = var.getter(value)\n            return value\n", "        getter = args[0].getter\n        for var in args[1:]:\n            getter = lambda value, inner=getter: var.getter(inner(value))\n", ["C14-f"]),
+    M("compose-skipped-for-same-name", "lena/variables/variable.py", "        if cvar and (\"type\" in cvar):", "        same_var = bool(cvar) and cvar.get(\"name\") == var_context.get(\"name\")\n        if cvar and (\"type\" in cvar) and not same_var:", ["C14-f"]),
     M("split-exact-types", "lena/flow/functions.py", "    if _has_context(value):\n        return (value[0], value[1])\n    else:\n        return (value, {})", "    if (type(value) is tuple and len(value) == 2\n            and type(value[1]) is dict):\n        return (value[0], value[1])\n    return (value, {})", ["C14-e"]),
     M("has-context-exact-dict", "lena/flow/functions.py", "            if isinstance(value[1], dict):\n                return True", "            if type(value[1]) is dict:\n                return True", ["C14-e"]),
     M("get-context-swapped", "lena/flow/functions.py", "    if _has_context(value):\n        return value[1]\n    else:\n        return {}", "    if _has_context(value):\n        return value[0]\n    else:\n        return {}", ["C14-e"]),
